@@ -90,6 +90,7 @@ CODES["C05"].update({
     "2:53": "a final handler did not observe the applied target",
     "2:54": "a negotiation handler returned false but the transition went on",
     "2:55": "final handlers did not run exactly once per changed state per binding",
+    "2:550": "a state's tick moved in a transition but its final handler (FooState / FooEnd) did not run exactly once in every binding that defines it (judged on the machine's clock, whatever IsAccepted says)",
     "2:56": "a final handler ran in a transition that was not accepted",
     "2:59": "a bound negotiation handler of an applied transition was not consulted exactly once",
     "2:57": "a state's handler ran before the handler of a state it Requires",
